@@ -74,6 +74,22 @@ def run_one(rng, i):
             odb = cls(FS, os.path.join(tmp, "odb"), state=state) if state else cls(FS, os.path.join(tmp, "odb"))
             odb.cache_types = [link]
             staging, meta, obj = build(odb, src + (os.sep if trailing else ""), FS, "md5")
+            if not single_file and rng.random() < 0.35:
+                # other work on the same store between staging and transfer: ANOTHER directory holding copies of some of the
+                # files is staged, then edited or removed.  The first staging must keep referring to the first directory.
+                other = os.path.join(tmp, "other")
+                for k, d in list(files.items())[: rng.randint(1, 3)]:
+                    q = os.path.join(other, *k)
+                    os.makedirs(os.path.dirname(q), exist_ok=True)
+                    open(q, "wb").write(d)
+                build(odb, other, FS, "md5")
+                if rng.random() < 0.5:
+                    import shutil
+                    shutil.rmtree(other)
+                else:
+                    for d_, _, fns in os.walk(other):
+                        for fn in fns:
+                            open(os.path.join(d_, fn), "wb").write(b"edited after staging " + os.urandom(3))
             transfer(staging, odb, {obj.hash_info}, shallow=False)
             if not single_file:
                 listing = {k: hi.value for k, _, hi in obj}
@@ -122,7 +138,7 @@ def main():
         failures += run_one(rng, i)
     print(json.dumps({"evaluations": n, "distinct_nontrivial": n, "n_failures": len(failures), "failures": failures[:4],
                       "bound": f"{n} seeded trees: <= 7 files, depth <= 4, duplicates / empty / CRLF / non-ASCII names, single files; 2 store classes x 3 link "
-                               "types x state on/off; source path with/without trailing separator"}))
+                               "types x state on/off; source path with/without trailing separator; in a third of the runs another directory with copies of some files is staged on the same store and then edited/removed before the transfer"}))
 
 
 if __name__ == "__main__":
